@@ -17,11 +17,15 @@ V_ENSURES(__CPROVER_return_value >= 0 || g_fpos[G_IX(zck->fd)] == V_OLD(g_fpos[G
 V_ENSURES(!RDD_HIT(zck, __CPROVER_return_value) || (g_watch_seen == 1 && g_watch_val == ((unsigned char *)data)[g_watch_off - V_OLD(g_fpos[G_IX(zck->fd)])])) /*@C13,C06.read_data.delivers_the_file_byte_at_every_offset*/
 V_ENSURES(RDD_HIT(zck, __CPROVER_return_value) || (g_watch_seen == V_OLD(g_watch_seen) && g_watch_val == V_OLD(g_watch_val))) /*@C13.read_data.watch_unchanged_elsewhere*/
 V_ENSURES((!((__CPROVER_return_value < 0 || (size_t)__CPROVER_return_value < length)) || (g_io_failed >= V_OLD(g_io_failed))) && (((__CPROVER_return_value < 0 || (size_t)__CPROVER_return_value < length)) || (g_io_failed == V_OLD(g_io_failed)))) /*@C12.read_data.ghost_flag*/
+V_ENSURES(G_FRAME(g_fpos, zck->fd) && G_FRAME(g_rd_bytes, zck->fd)) /*@C08,C09.read_data.other_descriptors_untouched*/
 ;
 
 int write_data(zckCtx *zck, int fd, const char *data, size_t length)
 V_REQUIRES(__CPROVER_rw_ok(zck, sizeof(*zck)))
 V_REQUIRES(length == 0 || data == NULL || __CPROVER_r_ok(data, length))
+/* call-site guards (spec/ghost.h), present only in units compiled with -DVERIF_WRITE_GUARD / -DVERIF_WRITE_ZERO: the REQUEST lies inside the window / is all zero */
+V_REQUIRES_WGUARD((fd == g_win_fd && (length == 0 || (g_fpos[G_IX(fd)] >= g_win_lo && g_fpos[G_IX(fd)] <= g_win_hi && length <= g_win_hi - g_fpos[G_IX(fd)]))))
+V_REQUIRES_WZERO(length == 0 || data == NULL || !(g_k2 < length) || data[g_k2] == 0)
 V_ASSIGNS(zck->error_state, g_fpos, g_wr_bytes, g_io_failed, g_win_bad)
 V_ENSURES(__CPROVER_return_value == 1 || __CPROVER_return_value == 0 || __CPROVER_return_value == -1) /*@C12.write_data.ret*/
 V_ENSURES(__CPROVER_return_value != 1 || (g_wr_bytes[G_IX(fd)] == V_OLD(g_wr_bytes[G_IX(fd)]) + length && g_fpos[G_IX(fd)] == V_OLD(g_fpos[G_IX(fd)]) + (g_off_t)length)) /*@C12.write_data.success_means_all_bytes_accepted*/
@@ -30,6 +34,7 @@ V_ENSURES(__CPROVER_return_value != -1 || V_OLD(zck->error_state) > 0) /*@C12.wr
 V_ENSURES(__CPROVER_return_value != 1 || zck->error_state == V_OLD(zck->error_state)) /*@C12.write_data.success_keeps_state*/
 V_ENSURES(fd != g_win_fd || g_win_bad == 1 || g_win_bad == V_OLD(g_win_bad)) /*@C05.write_data.window_flag_monotone*/
 V_ENSURES(fd != g_win_fd || V_OLD(g_win_bad) != 0 || g_win_bad == 1 || g_fpos[G_IX(fd)] == V_OLD(g_fpos[G_IX(fd)]) || (V_OLD(g_fpos[G_IX(fd)]) >= g_win_lo && g_fpos[G_IX(fd)] <= g_win_hi)) /*@C05.write_data.window*/
+V_ENSURES(G_FRAME(g_fpos, fd) && G_FRAME(g_wr_bytes, fd)) /*@C08,C05.write_data.other_descriptors_untouched*/
 ;
 
 int seek_data(zckCtx *zck, off_t offset, int whence)
@@ -41,5 +46,6 @@ V_ENSURES(__CPROVER_return_value == 1 || zck->error_state > 0) /*@C12.seek_data.
 V_ENSURES(__CPROVER_return_value != -1 || V_OLD(zck->error_state) > 0) /*@C12.seek_data.minus_one_only_for_context_already_in_error*/
 V_ENSURES(__CPROVER_return_value != 1 || zck->error_state == V_OLD(zck->error_state)) /*@C12.seek_data.success_keeps_state*/
 V_ENSURES(__CPROVER_return_value == 1 || g_fpos[G_IX(zck->fd)] == V_OLD(g_fpos[G_IX(zck->fd)])) /*@C12.seek_data.position_kept_on_failure*/
+V_ENSURES(G_FRAME(g_fpos, zck->fd)) /*@C08,C09.seek_data.other_descriptors_untouched*/
 ;
 #endif
